@@ -87,7 +87,12 @@ def case_variants(v, rng=None):
 JUNK = ["?", "Q", "ZZ", "0", "1", "-", "N/A", "NONE", "high", "Not Defined", "XX", "ND ND", ":", "/", "é", "AV:N", "x x",
         "\t?", "None", "null", "*",
         # format / template metacharacters (an answer is user text and may end up in a message)
-        "{", "}", "{}", "{0}", "{x}", "n}", "{7}", "%s", "%(x)s", "%", "\\", "$x", "${x}", "'", "\"", "\x1b[0m", "(N)", "|"]
+        "{", "}", "{}", "{0}", "{x}", "n}", "{7}", "%s", "%(x)s", "%", "\\", "$x", "${x}", "'", "\"", "\x1b[0m", "(N)", "|",
+        # every other ASCII punctuation mark alone, and the words an interactive prompt might one day treat as commands
+        "!", "#", "$", "&", "(", ")", "+", ",", ".", ";", "<", "=", ">", "@", "[", "]", "^", "_", "`", "~", "<<", "..", "--",
+        "back", "b", "undo", "quit", "exit", "q", "help", "skip", "yes", "no", "all", "default", "network", "adj", "unchanged",
+        # terminal control sequences typed by accident (cursor keys, DEL, Ctrl-L)
+        "\x1b[A", "\x1b[D", "\x1bOH", "\x7f", "\x0c"]
 
 
 _order_cache = {}
@@ -213,15 +218,18 @@ def question_order(vtag, all_metrics):
     return order, probe
 
 
-def script_for(order, target, rng=None, noise=0.0, case="asis"):
+def script_for(order, target, rng=None, noise=0.0, case="asis", ver=None):
     """Answers selecting target[metric] for each question in `order`; with probability
-    `noise` an invalid answer (for that metric) is inserted first.  Returns
-    (answers, expected_reads)."""
+    `noise` an invalid answer (for that metric) is inserted first -- with `ver` given, sometimes
+    the empty answer where Not Defined is not legal.  Returns the answers."""
     answers = []
     for m in order:
         v = target[m]
         if rng is not None and noise and rng.random() < noise:
-            answers.append(rng.choice(JUNK))
+            if ver is not None and T.ND[ver] not in T.VALUES[ver][m] and rng.random() < 0.3:
+                answers.append("")
+            else:
+                answers.append(rng.choice(JUNK))
         if case == "lower":
             v = v.lower()
         elif case == "upper":
